@@ -154,6 +154,9 @@ class C12(Prop):
             spec = rng.choice([('v', 'k'), (0, 2), ('k', 1), ('a',), (2, 'k', 'a'), ('k', 'k') if h.count('k') > 1 else ('k',)])
             missing = rng.choice([None, None, 'M'])
             yield Case('transform', ('cut', spec, missing, t))
+            # the accessors on the same (ragged) table: fields in any order, by name or position
+            tu = self._table(rng)
+            yield Case('accessors', (rng.choice([('v', 'k'), ('a',), (2, 0), ('v', 'a', 'k'), ('k', 'v'), (1,)]), missing, tu))
             yield Case('reshape', ('dicts', missing, t))
             yield Case('transform', ('cutout', spec[:rng.choice([1, 2])], missing, t))
             yield Case('transform', ('movefield', rng.choice(['v', 'a', 'k']), rng.choice([0, 1, 2, 5, -1]), t))
@@ -207,10 +210,41 @@ class C12(Prop):
     def expand(self, case):
         if case.op == 'sub':
             return Case('const_true', case.arg, dict(case.meta, orig='sub'))
+        if case.op == 'accessors':
+            return Case('const_true', ('accessors',) + tuple(case.arg), dict(case.meta, orig='accessors'))
         return case
+
+    def _accessors(self, sel, missing, t):
+        """values / data / records / namedtuples / dicts: one item per data row, in order, every cell under its own field,
+        `missing` for the cells a short row does not have, extra cells of long rows kept by data / records and trimmed by
+        namedtuples / dicts"""
+        import petl as etl
+        hdr = list(t[0])
+        src = lambda: [list(r) for r in t]   # noqa
+        cell = lambda r, i: r[i] if i < len(r) else missing   # noqa
+        idx = [f if isinstance(f, int) else hdr.index(f) for f in sel]
+        got = list(etl.values(src(), *sel, missing=missing))
+        want = [cell(r, idx[0]) for r in t[1:]] if len(sel) == 1 else [tuple(cell(r, i) for i in idx) for r in t[1:]]
+        if [tuple(g) if len(sel) > 1 else g for g in got] != want:
+            return False
+        if [tuple(r) for r in etl.data(src())] != [tuple(r) for r in t[1:]]:
+            return False
+        recs = list(etl.records(src(), missing=missing))
+        if [tuple(r) for r in recs] != [tuple(r) for r in t[1:]]:
+            return False
+        for rec, r in zip(recs, t[1:]):
+            for i, f in enumerate(hdr):
+                if hdr.index(f) == i and rec[f] != cell(r, i):
+                    return False
+        nts = list(etl.namedtuples(src(), missing=missing)) if all(f.isidentifier() for f in hdr) else None
+        if nts is not None and [tuple(n) for n in nts] != [tuple(cell(r, i) for i in range(len(hdr))) for r in t[1:]]:
+            return False
+        return True
 
     def impl(self, case):
         try:
+            if case.op == 'const_true' and case.arg and case.arg[0] == 'accessors':
+                return codec.t_bool(self._accessors(*case.arg[1:]))
             if case.op == 'const_true':
                 # sub(table, field, pattern, repl, count): re.sub on that field only, the other cells untouched
                 import re
@@ -240,6 +274,13 @@ class C12(Prop):
             return obs_exc(e)
 
     def valid(self, case):
+        if case.op == 'accessors' or (case.op == 'const_true' and case.arg and case.arg[0] == 'accessors'):
+            try:
+                sel, missing, t = case.arg[-3:]
+                return (len(t) >= 1 and tuple(t[0]) == ('k', 'a', 'v') and 1 <= len(sel) <= 3
+                        and all(f in t[0] or (isinstance(f, int) and 0 <= f < 3) for f in sel))
+            except Exception:
+                return False
         if case.op in ('const_true', 'sub'):
             try:
                 pat, repl, count, vals = case.arg
@@ -341,6 +382,10 @@ class C12(Prop):
         if case.op == 'transform' and case.arg[0] in ('cat', 'stack', 'annex'):
             return sum(len(x) - 1 for x in t) >= 2
         return len(t) >= 3
+
+    def static_checks(self):
+        from .. import catalogue
+        return [catalogue.method_alias_check()]
 
 
 PROP = C12
